@@ -307,8 +307,11 @@ pub(crate) fn quote<'a>(s: &'a str, options: &QuoteOptions) -> Cow<'a, str> {
         return ansi_c_quote(s).into();
     }
 
-    let use_default_quotes =
-        !use_ansi_c_quotes && (options.always_quote || s.is_empty() || s.contains(needs_escaping));
+    let use_default_quotes = !use_ansi_c_quotes
+        && (options.always_quote
+            || s.is_empty()
+            || s.contains(needs_escaping)
+            || contains_char_special_by_position(s));
 
     if !use_default_quotes {
         return s.into();
@@ -357,15 +360,17 @@ fn backslash_escape(s: &str) -> Cow<'_, str> {
     if s.is_empty() {
         // An empty string must be represented as '' to be a valid shell word.
         Cow::Owned("''".to_string())
-    } else if !s.chars().any(needs_escaping) {
+    } else if !s.chars().any(needs_escaping) && !contains_char_special_by_position(s) {
         Cow::Borrowed(s)
     } else {
         let mut output = String::with_capacity(s.len());
+        let mut prev = None;
         for c in s.chars() {
-            if needs_escaping(c) {
+            if needs_escaping(c) || is_special_by_position(prev, c) {
                 output.push('\\');
             }
             output.push(c);
+            prev = Some(c);
         }
         Cow::Owned(output)
     }
@@ -476,6 +481,28 @@ const fn needs_escaping(c: char) -> bool {
     )
 }
 
+// Returns whether or not the given character, unquoted, is special to the shell because of
+// where it stands in the word: a `~` at the start of the word or right after a `:` or `=`
+// (tilde expansion), or a `#` at the start of the word (comment).
+const fn is_special_by_position(prev: Option<char>, c: char) -> bool {
+    match c {
+        '~' => matches!(prev, None | Some(':' | '=')),
+        '#' => prev.is_none(),
+        _ => false,
+    }
+}
+
+fn contains_char_special_by_position(s: &str) -> bool {
+    let mut prev = None;
+    for c in s.chars() {
+        if is_special_by_position(prev, c) {
+            return true;
+        }
+        prev = Some(c);
+    }
+    false
+}
+
 const fn needs_ansi_c_quoting(c: char) -> bool {
     c.is_ascii_control()
 }
@@ -489,6 +516,10 @@ mod tests {
         assert_eq!(quote_if_needed("a", QuoteMode::BackslashEscape), "a");
         assert_eq!(quote_if_needed("a b", QuoteMode::BackslashEscape), r"a\ b");
         assert_eq!(quote_if_needed("", QuoteMode::BackslashEscape), "''");
+        assert_eq!(quote_if_needed("~", QuoteMode::BackslashEscape), r"\~");
+        assert_eq!(quote_if_needed("a~", QuoteMode::BackslashEscape), "a~");
+        assert_eq!(quote_if_needed("a=~", QuoteMode::BackslashEscape), r"a=\~");
+        assert_eq!(quote_if_needed("#a#", QuoteMode::BackslashEscape), r"\#a#");
     }
 
     #[test]
@@ -497,6 +528,9 @@ mod tests {
         assert_eq!(quote_if_needed("a b", QuoteMode::SingleQuote), "'a b'");
         assert_eq!(quote_if_needed("", QuoteMode::SingleQuote), "''");
         assert_eq!(quote_if_needed("'", QuoteMode::SingleQuote), "\\'");
+        assert_eq!(quote_if_needed("~", QuoteMode::SingleQuote), "'~'");
+        assert_eq!(quote_if_needed("#", QuoteMode::SingleQuote), "'#'");
+        assert_eq!(quote_if_needed("a#", QuoteMode::SingleQuote), "a#");
     }
 
     fn assert_echo_expands_to(unexpanded: &str, expected: &str) {
